@@ -12,6 +12,7 @@ from props.progcases import ProgramSpec
 
 PID = 'C02'
 TIE_MODULES = ['DiffxVerif.Tie.Sections', 'DiffxVerif.Tie.Spec']
+NEEDS = ['sections', 'options', 'text', 'spec_tree']
 ASSUMPTIONS = [
     'CPython codecs and json.dumps are environment (answers supplied to the model at run time); codec laws are tested per codec by C15',
     'harness/specdoc.py is an independent serializer written from docs/spec; three-way comparison implementation / Lean model / specdoc',
